@@ -267,7 +267,15 @@ def r5(ctx, r):
              "destruction returns while tasks still run", okdesc="phase 4: join every joinable worker (detach only in DETACHED mode)")
     # the loop ends only when no joinable entry is left
     r.instance()
-    brk = [b for b in p4.blocks.values() if b.cond is not None and show(b.cond).replace(" ", "") in ("!found",)]
+    brk = []
+    for b in p4.blocks.values():
+        c, st, sf = common.branch(b) if b.cond is not None else (None, None, None)
+        if c is not None and show(c).replace(" ", "") == "found" and st is not None and sf is not None:
+            # found → another round (the test is reached again); not found → the loop is left for good
+            again = search(p4, ("block", st), lambda x, b=b: x.block is b, eh=False) is not None
+            leaves = search(p4, ("block", sf), lambda x, b=b: x.block is b, eh=False) is None
+            if again and leaves:
+                brk.append(b)
     r.expect(bool(brk), p4, None, "join loop exit", "phase 4's loop no longer runs until no joinable worker is found", okdesc="phase 4 loops until no joinable entry")
     for name in ("<dtor>", "shutdown"):
         f = fn(ctx, name) if name != "<dtor>" else fb.func(TP + "::<dtor>")
